@@ -89,11 +89,17 @@ def check(ck):
         rp = kwarg(c, "rpcid", 2) if site is None else site.expr("rpcid", 2)
         request_param = fi.params[0] if fi.params and fi.params[0] != "self" else (fi.params[1] if len(fi.params) > 1 else None)
         # structural exemptions
-        if fi.name == "do_POST":
+        if fi.name == "do_POST" or (fi.cls is not None and fi.cls.name == "SimpleJSONRPCRequestHandler" and
+                                    not any(isinstance(x, ast.Call) and call_name(x) in ("_marshaled_dispatch", "loads", "load") for x in ast.walk(fi.node))):
+            # (do_POST's catch-all, and answers of the HTTP layer to requests it does not read at all - other verbs, bad headers)
             ck.ok("C03.1", label + "[http catch-all]", "exempt: no parsed request in scope", q.loc(fi, n))
             continue
         if _in_handler_of_try_calling(prog, fi, c, is_loads):
             ck.ok("C03.1", label + "[parse failure]", "exempt: the request could not be parsed", q.loc(fi, n))
+            continue
+        if _in_handler_of_try_calling(prog, fi, c, lambda r, cc: call_name(cc) in ("decode", "from_bytes")) and \
+                not _in_handler_of_try_calling(prog, fi, c, lambda r, cc: call_name(cc) in ("_marshaled_dispatch", "_dispatch", "_marshaled_single_dispatch")):
+            ck.ok("C03.1", label + "[undecodable body]", "exempt: the request bytes are not text, nothing was parsed", q.loc(fi, n))
             continue
         if _in_handler_of_try_calling(prog, fi, c, is_jdumps):
             ck.bad("C03.1", label + "[reply cannot be marshaled]",
@@ -112,6 +118,10 @@ def check(ck):
             continue
         if rp is not None:
             t = prov.origin(g, n, rp) if site is None else site.origin("rpcid", 2)
+            if not is_request_id(t, request_param) and common.is_new_function(fi):
+                # a response built in a new method that was not expanded into its callers: which entry its arguments stand for is not known
+                raise AnalysisError("%s builds a response in a new helper method (id %s): which request entry it answers is not modelled"
+                                    % (q.fn(fi), prov.show(t)[:50]))
             ck.require(is_request_id(t, request_param), "C03.1", label + "[direct]",
                        "rpcid = %s" % prov.show(t),
                        "response id is %s, not the id member of the request entry" % prov.show(t), q.loc(fi, n))
